@@ -28,5 +28,8 @@ package router
 //@ ensures has_key(p.Tags, config.Key) && jsonvalid(p.Tags[config.Key]) && result1 ==> isptrto(result0, "Recv")
 
 //@ func coerce
-//@ props C19
+//@ props C19 C08
 //@ nopanic C13
+// both kinds of value a source returns (a physical receiver object, a logical receiver name) are accepted unchanged
+//@ ensures isptrto(v, "Recv") ==> result1 && isptrto(result0, "Recv")
+//@ ensures isstring(v) ==> result1 && isstring(result0) && strval(result0) == strval(v)
